@@ -252,10 +252,11 @@ impl Property for C13 {
     fn max_shrink_iters(&self) -> u32 {
         256
     }
-    fn strategy(&self, _tier: Tier) -> BoxedStrategy<Case> {
+    fn strategy(&self, tier: Tier) -> BoxedStrategy<Case> {
+        let max_ops = tier.pick(8, 16) as usize;
         let hop = prop_oneof![Just(HOp::ForceElement), Just(HOp::ForceEncoding), Just(HOp::Value), Just(HOp::UseInAdd), Just(HOp::UseInEq), Just(HOp::CloneThenForce)];
         prop_oneof![
-            5 => rl::program(8).prop_map(|prog| Case::Program { prog }),
+            5 => rl::program(max_ops).prop_map(|prog| Case::Program { prog }),
             1 => (recipe::recipe_small(), any::<bool>(), prop_oneof![Just(Mode::Witness), Just(Mode::Input), Just(Mode::Constant)], proptest::collection::vec(hop, 0..=12))
                 .prop_map(|(src, from_encoding, mode, ops)| Case::History { src, from_encoding, mode, ops }),
         ]
